@@ -295,4 +295,59 @@ def install(reg):
         return VBool(z3.Select(get(it, key, "sub"), stripped.t))
 
     reg.spec_natives["fs_isdir"] = fs_isdir
+    install_md5(reg)
     reg.spec_natives.update(fs_has=fs_has, fs_data=fs_data, fs_files=fs_files, fs_subdirs=fs_subdirs)
+
+
+# ---------------------------------------------------------------------------- hashlib.md5
+MD5 = uf("MD5", STR, STR)
+MD5_INV = uf("MD5.inv", STR, STR)
+
+
+def md5_of(it, data_t):
+    r = MD5(data_t)
+    key = ("md5", _tid(data_t))
+    if key not in it.path.memo:
+        it.path.memo[key] = True
+        it.path.assume(MD5_INV(r) == data_t)  # collision freedom (ASSUMED, as for git hashes)
+    return r
+
+
+class Md5Model(Model):
+    cls_name = "hashlib.md5"
+
+    def getattr(self, it, ref, name):
+        if name == "update":
+            def update(it_, self_ref, a, k):
+                f = it_.path.heap[self_ref.addr].fields
+                cur = f["state"]
+                f["state"] = VStr(a[0].t if vals.concrete_str(cur) == "" else z3.Concat(cur.t, a[0].t), True)
+                return NONE
+            return self.method(ref, update, name)
+        if name == "hexdigest":
+            return self.method(ref, lambda it_, r, a, k: VStr(md5_of(it_, F(it_, r)["state"].t)), name)
+        raise Unsupported(f"md5.{name}")
+
+
+MD5M = Md5Model()
+
+
+def install_md5(reg):
+    reg.externals["hashlib.md5"] = VNative(lambda it, a, k: new(it, MD5M, {"state": VStr(S(""), True)}), "hashlib.md5")
+    reg.spec_natives["md5_hex"] = lambda it, a, k: VStr(md5_of(it, a[0].t))
+
+    def vdir_view(it, a, k):
+        """ghost_M of a VdirStore: the *.ics / *.vcf files of its directory (not *.tmp, not the
+        metadata file), each with the md5 of its bytes."""
+        store = a[0]
+        p = it.getattr(store, "path")
+        key = dir_state(it, p.t)
+        dom, data = get(it, key, "dom"), get(it, key, "data")
+        n = z3.FreshConst(STR, "n")
+        vdom = z3.Lambda([n], z3.And(z3.Select(dom, n),
+                                     z3.Or(z3.SuffixOf(S(".ics"), n), z3.SuffixOf(S(".vcf"), n)),
+                                     z3.Not(z3.SuffixOf(S(".tmp"), n)), n != S(".xandikos")))
+        vval = z3.Lambda([n], MD5(z3.Select(data, n)))
+        return VMap(VStr(S("")), vdom, VStr(vval))
+
+    reg.spec_natives["vdir_view"] = vdir_view
